@@ -10,6 +10,8 @@ import (
 	"sync/atomic"
 	"time"
 
+	"github.com/fatedier/frp/pkg/msg"
+
 	"verif/h"
 )
 
@@ -30,6 +32,7 @@ type cEnv struct {
 	removed    []string // names taken out by a reload: must be gone at the client and at the server
 	gonePorts  []int    // remote ports given up by a reload: must not be bound any more
 	nextIdx    int
+	srvT       int    // heartbeatTimeout of frps (0: the same as the client\'s)
 	reloadNote string // set once a reload was applied during an outage: what was reloaded when
 	srvText    string
 	srv        *h.Server
@@ -176,6 +179,11 @@ func runPair(c *h.Case, e *cEnv, phases []string, fam string, sample bool) {
 	if scope {
 		scopeLine = "auth.additionalScopes = [\"HeartBeats\"]\n"
 	}
+	srvT := e.pair.T
+	if e.srvT != 0 {
+		srvT = e.srvT
+	}
+	c.Data["server_heartbeat_timeout_s"] = srvT
 	var ports []int
 	var err error
 	up := false
@@ -190,7 +198,7 @@ userConnTimeout = 3
 transport.tcpMux = %v
 transport.heartbeatTimeout = %d
 transport.maxPoolCount = 2
-`, ports[0], token, scopeLine, e.mux, e.pair.T)
+`, ports[0], token, scopeLine, e.mux, srvT)
 		if !e.startServer(1) {
 			continue
 		}
@@ -405,8 +413,8 @@ func (e *cEnv) awaitRecovery(kind string, heal int64) bool {
 				e.mux, e.pair.I, e.pair.T, e.reloadNote, secs(now-heal), len(e.proxies), len(e.visitors), why)
 			return false
 		}
-		e.c.Violation("no-recovery-after-"+kind, "mux=%v, %d proxies, heartbeat %d/%d: %.1f s after the server was reachable again the tunnels are not back (%s); connection attempts since: %d",
-			e.mux, e.n, e.pair.I, e.pair.T, secs(now-heal), why, len(e.relay.Accepts(heal, now)))
+		e.c.Violation("no-recovery-after-"+kind, "mux=%v, %d proxies, heartbeat %d/%d: %.1f s after the server was reachable again the tunnels are not back (%s); connection attempts since: %d; sessions of this client in frps's table: %d",
+			e.mux, e.n, e.pair.I, e.pair.T, secs(now-heal), why, len(e.relay.Accepts(heal, now)), e.sessionsOfUser())
 		return false
 	}
 	if kind != "start" {
@@ -695,6 +703,45 @@ func (e *cEnv) phase(ph string) bool {
 
 	case "reload-outage":
 		return e.reloadOutage(arg)
+
+	case "frozen-loss-then-refused-login":
+		// the path goes dead without FIN / RST: frps (long heartbeat timeout) keeps the session, only frpc's own
+		// heartbeat check notices. The next argN logins are refused (LoginResp with an error, by a scripted server the
+		// relay diverts them to); the login after that reaches frps, which must recognise the client by its run id,
+		// replace the stale session and take the registrations.
+		if argN < 1 {
+			argN = 1
+		}
+		var refusedAt atomic.Int64
+		var refused atomic.Int64
+		var fs *h.FakeServer
+		var err error
+		for try := 0; try < 4; try++ {
+			fs, err = h.StartFakeServer(h.FakeServerOpts{Port: pa.Get(), Token: token, TCPMux: e.mux,
+				OnLogin: func(fs *h.FakeServer, l *msg.Login) (*msg.LoginResp, bool) {
+					refused.Add(1)
+					refusedAt.Store(h.Now())
+					e.c.Ev("diverted-login-refused", "run_id", l.RunID, "t", h.Now())
+					return &msg.LoginResp{Error: "refused by script"}, true
+				}})
+			if err == nil {
+				break
+			}
+		}
+		if err != nil {
+			run.Inconclusive("C: refusing server did not start")
+			return false
+		}
+		defer fs.Close()
+		frozen := e.relay.FreezeLive()
+		defer e.relay.CutPairs(frozen)
+		e.relay.Divert(fmt.Sprintf("127.0.0.1:%d", fs.Port), argN)
+		if !waitUntil(teardownGrace(e.pair.T)+time.Duration(22*argN)*time.Second, func() bool { return refused.Load() >= int64(argN) }) {
+			e.c.Violation("silent-server-not-detected", "frozen path, mux=%v heartbeat %d/%d: only %d login attempts %.1f s after the path went dead", e.mux, e.pair.I, e.pair.T, refused.Load(), secs(h.Now()-start))
+			return false
+		}
+		run.Count("F_refused_logins_after_frozen_loss", refused.Load())
+		return e.awaitRecovery("frozen-loss-then-refused-login", refusedAt.Load())
 
 	case "cut-while-login-parked":
 		if e.srv == nil || e.runID == "" {
@@ -999,4 +1046,35 @@ func reloadCase(c *h.Case, k int) {
 	e.mux = (k%2 == 0) != ((k/8)%2 == 1)
 	c.Data["phases"] = phases
 	runPair(c, e, phases, "R", k < 1)
+}
+
+func (e *cEnv) sessionsOfUser() int {
+	if e.srv == nil {
+		return -1
+	}
+	n := 0
+	for _, s := range e.srv.Snapshot().Sessions {
+		if s.User == e.user {
+			n++
+		}
+	}
+	return n
+}
+
+// frozenRefusedCase (family F): a loss frps does not notice, then refused logins, then frps reachable.
+func frozenRefusedCase(c *h.Case, k int) {
+	e := &cEnv{c: c, srvT: 90}
+	n := 1
+	if k >= 2 {
+		n = 1 + c.Rng.Intn(2)
+	}
+	phases := []string{"frozen-loss-then-refused-login:" + strconv.Itoa(n)}
+	if k >= 2 && c.Rng.Intn(2) == 0 {
+		phases = append(phases, "cut")
+	}
+	e.n = []int{5, 20}[(k/2)%2]
+	e.pair = hbPairs[k%len(hbPairs)]
+	e.mux = k%2 == 0
+	c.Data["phases"] = phases
+	runPair(c, e, phases, "F", false)
 }
